@@ -81,7 +81,9 @@ def run(check, pool, Task):
     tasks = []
     for (n, ps, dims, nanr, pm, mode) in fam:
         name = f"rtree d={dims} n={n} page={ps} nan={int(nanr)} perm={''.join(map(str, pm))} {mode}"
-        tasks.append(Task(name, c03.explore, (n, ps), {'dims': dims, 'nan_rows': nanr, 'perm': pm, 'mode': mode, 'budget_s': cap - 30},
+        sq = (n <= 2) or (n == 3 and pm == list(range(n)) and ps in (1, 2))       # second, covering query on the same index object
+        name += ' +2nd-query' if sq else ''
+        tasks.append(Task(name, c03.explore, (n, ps), {'dims': dims, 'nan_rows': nanr, 'perm': pm, 'mode': mode, 'budget_s': cap - 30, 'second_query': sq},
                           timeout=cap, meta={'n': n, 'page_size': ps, 'dims': dims, 'nan_rows': nanr, 'perm': pm, 'mode': mode}))
     tasks.sort(key=lambda t: -(t.meta['n'] * 10 + (5 - t.meta['page_size'])))
     res = pool(tasks)
